@@ -96,16 +96,18 @@ HasSerial(hh) == LET pl == ProgLine(hh) IN pl > 0 /\ Rec[pl].id = Rec[hh].prog /
 (* line of the k-th invocation / return of client c in the history that starts at hh and ends at line e *)
 EvLines(hh, e, c, what) == SelectSeq([i \in 1..(e - hh) |-> hh + i], LAMBDA i : Rec[i].e = what /\ Rec[i].c = c)
 Occ(order, i) == Cardinality({p \in 1..i : order[p] = order[i]})
-RealTimeOK(order, hh, e) ==
+(* (the invocation / return lines of every client are computed once per history and handed down) *)
+RealTimeOK(order, invs, rets) ==
     \A i \in 1..Len(order) : \A j \in (i + 1)..Len(order) :
-        LET invI == EvLines(hh, e, order[i], "inv")[Occ(order, i)]
-            retJ == EvLines(hh, e, order[j], "ret")[Occ(order, j)]
-        IN ~(retJ < invI)
+        ~(rets[order[j]][Occ(order, j)] < invs[order[i]][Occ(order, i)])
 SerialOK(fin, hh, e) ==
     \/ ~HasSerial(hh) \/ "sig" \notin DOMAIN fin
-    \/ \E x \in SeqRange(Rec[ProgLine(hh)].serial) :
-          /\ x.sig = fin.sig
-          /\ \E o \in SeqRange(x.orders) : RealTimeOK(o, hh, e)
+    \/ LET nc == Rec[ProgLine(hh)].nclients
+           invs == [c \in 1..nc |-> EvLines(hh, e, c, "inv")]
+           rets == [c \in 1..nc |-> EvLines(hh, e, c, "ret")]
+       IN \E x \in SeqRange(Rec[ProgLine(hh)].serial) :
+             /\ x.sig = fin.sig
+             /\ \E o \in SeqRange(x.orders) : RealTimeOK(o, invs, rets)
 
 Final == /\ InHist /\ E.e = "final" /\ DOMAIN pend = {} /\ lind = {}
          /\ E.outcome = "Complete"
